@@ -220,6 +220,12 @@ func (h *handler) serve(clientCtx context.Context) error {
 	unaryRpcCtx, unaryRpcCtxCancel := context.WithCancel(ctx)
 	defer unaryRpcCtxCancel()
 
+	// Unary handlers run with the caller-supplied context (it carries the
+	// stats tags), but must also be cancelled when this connection ends.
+	unaryHandlerCtx, unaryHandlerCtxCancel := context.WithCancel(clientCtx)
+	defer unaryHandlerCtxCancel()
+	defer context.AfterFunc(ctx, unaryHandlerCtxCancel)()
+
 	const numRpcWorkers = 8
 
 	for i := 0; i < numRpcWorkers; i++ {
@@ -227,7 +233,12 @@ func (h *handler) serve(clientCtx context.Context) error {
 			for {
 				select {
 				case args := <-h.unaryRpcChan:
-					h.writeChan <- h.processUnaryRpc(clientCtx, args.info, args.md, args.rpc)
+					resp := h.processUnaryRpc(unaryHandlerCtx, args.info, args.md, args.rpc)
+					select {
+					case h.writeChan <- resp:
+					case <-ctx.Done():
+						// the writer has gone; nobody is left to take the reply
+					}
 				case <-unaryRpcCtx.Done():
 					return
 				}
